@@ -6,13 +6,19 @@ import re
 HERE = os.path.dirname(os.path.dirname(os.path.abspath(__file__)))
 STANDIN = re.compile(r"^(model|wf|twin|range|lazy|stale|persist|evict|pickle|merge|conc|setop|multiunion|weighted|conv|"
                      r"cmpfault|iter|refcount|alloc|checkers|length|Length):")
+import json
+KEEP = os.path.join(HERE, "seeded", "results.json")      # id -> [verdict, deductive, stand-in]: rows of earlier sweeps
+kept = json.load(open(KEEP)) if os.path.exists(KEEP) else {}
 rows = []
 for d in sorted(os.listdir(os.path.join(HERE, "seeded"))):
     if not re.match(r"C\d\d-m\d$", d):
         continue
     log = "/tmp/seedrun/%s.log" % d
     if not os.path.exists(log):
-        rows.append((d, "not run in this sweep", "", ""))
+        if d in kept:
+            rows.append((d, kept[d][0] + " (earlier sweep)", kept[d][1], kept[d][2]))
+        else:
+            rows.append((d, "not run in this sweep", "", ""))
         continue
     txt = open(log).read()
     keys = []
@@ -24,6 +30,8 @@ for d in sorted(os.listdir(os.path.join(HERE, "seeded"))):
     verdict = "yes" if "VIOLATION property=" in txt else ("CHECKER ERROR" if "CHECKER ERROR" in txt else
                                                             ("UNDECIDED" if "UNDECIDED" in txt else "NO"))
     rows.append((d, verdict, "; ".join(ded[:3]) or "-", "; ".join(std[:2]) or "-"))
+    kept[d] = [verdict, "; ".join(ded[:3]) or "-", "; ".join(std[:2]) or "-"]
+json.dump(kept, open(KEEP, "w"), indent=0, sort_keys=True)
 with open(os.path.join(HERE, "seeded", "RESULTS.md"), "w") as f:
     f.write("# Which checks catch which seeded changes\n\n"
             "Each change was applied to a scratch worktree of /repo HEAD and the quick check of its property run against it "
